@@ -293,8 +293,13 @@ impl<'tcx> Cx<'tcx> {
                         _ => {}
                     }
                 }
-                ConstValue::Scalar(_) => {
+                ConstValue::Scalar(mir::interpret::Scalar::Ptr(ptr, _)) => {
                     s.push_str(",\"ptr\":true");
+                    // a pointer to a `static` item: name the item, so that its initialiser can be looked up
+                    let aid = ptr.provenance.alloc_id();
+                    if let Some(mir::interpret::GlobalAlloc::Static(did)) = tcx.try_get_global_alloc(aid) {
+                        let _ = write!(s, ",\"static\":{}", esc(&def_id_key(tcx, did)));
+                    }
                 }
                 ConstValue::ZeroSized => {
                     s.push_str(",\"zst\":true");
